@@ -163,6 +163,14 @@ class GoExec:
     def oblige(self, st, name, goal, kind='proof', extra=(), src=None, meta=None):
         r = simp_bool(goal) if kind == 'proof' else None
         if r is True:
+            if re.match(r'(post#|inv-step#|panic-post#)', name):
+                # syntactically true: nothing to prove, but the path is recorded for the vacuity guard (is any path to
+                # the return / the back edge feasible at all?)
+                fname = self.frame.key if self.frame else '?'
+                o = Obligation('%s/%s' % (fname, name), st.hyps() + list(extra), z3.BoolVal(True), kind, func=fname, src=src)
+                o.status, o.answer, o.solver = 'discharged', 'unsat', 'trivial (goal simplifies to true)'
+                o.trivial = True
+                self.obls.append(o)
             return
         key = (self.frame.key if self.frame else '?', name, tuple(self.trace), src)
         if key in self.obl_keys:
